@@ -59,8 +59,14 @@ def suite_ok(wt):
     # a failure counts only if it repeats when the test is run alone
     real = set()
     for t in sorted(failed):
-        rc2, out2 = sh(["go", "test", "-vet=off", "-count=1", "-run", "^" + t + "$", "./..."], cwd=wt, timeout=900)
-        if rc2 != 0 and "--- FAIL: " + t in out2:
+        fails = 0
+        for _ in range(3):
+            rc2, out2 = sh(["go", "test", "-vet=off", "-count=1", "-run", "^" + t + "$", "./..."], cwd=wt, timeout=900)
+            if rc2 != 0 and "--- FAIL: " + t in out2:
+                fails += 1
+            else:
+                break
+        if fails == 3:
             real.add(t)
     return real
 
@@ -119,6 +125,17 @@ def main():
         os.rmdir(wt)
         try:
             subprocess.check_call(["git", "-C", "/repo", "worktree", "add", "--detach", "-q", wt, "HEAD"])
+            # a change written against an earlier commit (a later fix: commit touched the same lines)
+            # is confirmed on the newest commit it applies to
+            rc_chk, _ = sh(["git", "apply", "--check", patch], cwd=wt)
+            if rc_chk != 0:
+                _, log = sh(["git", "-C", "/repo", "log", "--format=%h", "-60"])
+                for h in log.split()[1:]:
+                    sh(["git", "checkout", "-q", "--detach", h], cwd=wt)
+                    rc_chk, _ = sh(["git", "apply", "--check", patch], cwd=wt)
+                    if rc_chk == 0:
+                        meta["confirmed_on_commit"] = h
+                        break
             # demonstration without the change
             if place and os.path.exists(demo_file):
                 os.makedirs(os.path.dirname(os.path.join(wt, place)), exist_ok=True)
